@@ -490,7 +490,8 @@ class Env:
         elif kind == "copen":
             x = ScriptCircuitOpen(i, e.get("klass", "UNKNOWN"))
         elif kind == "abort":
-            x = AbortRetryError()
+            # `redress.AbortRetry` is the other exported name of the same exception
+            x = redress.AbortRetry() if e.get("alias") else AbortRetryError()
         elif kind == "kbd":
             x = KeyboardInterrupt()
         elif kind == "sysexit":
